@@ -161,6 +161,24 @@ theorem checkExpr_sound (g : Scopes) : ‚àÄ (e : SExpr), checkExpr g e = .ok () ‚
     cases ha : checkExpr g a with
     | error er => rw [ha] at h; cases h
     | ok u => rw [ha] at h; exact .bin (iha ha) (ihb h)
+  | store n i e ihi ihe =>
+    intro h
+    simp only [checkExpr] at h
+    cases hl : lookupSym g n with
+    | none => rw [hl] at h; cases h
+    | some f =>
+      rw [hl] at h
+      cases hi : checkExpr g i with
+      | error er => rw [hi] at h; cases h
+      | ok u =>
+        rw [hi] at h
+        cases he : checkExpr g e with
+        | error er => rw [he] at h; cases h
+        | ok u2 =>
+          rw [he] at h
+          cases f with
+          | true => simp at h
+          | false => exact .store hl (ihi hi) (ihe he)
 
 theorem checkExpr_complete {g : Scopes} {e : SExpr} (h : WSExpr g e) : checkExpr g e = .ok () := by
   induction h with
@@ -170,6 +188,7 @@ theorem checkExpr_complete {g : Scopes} {e : SExpr} (h : WSExpr g e) : checkExpr
   | post hl => simp [checkExpr, hl]
   | un _ ih => simp [checkExpr, ih]
   | bin _ _ iha ihb => simp [checkExpr, iha, ihb]
+  | store hl _ _ ihi ihe => simp [checkExpr, hl, ihi, ihe]
 
 theorem checkExpr_iff (g : Scopes) (e : SExpr) : checkExpr g e = .ok () ‚Üî WSExpr g e :=
   ‚ü®checkExpr_sound g e, checkExpr_complete‚ü©
